@@ -96,6 +96,40 @@ type c06Edit struct {
 	Class      string // known-deviation class this edit falls into by construction ("" none)
 	JoinsAbove int    // number of hyphen-ending lines above the inserted notice
 	SplitLine  int    // 1-based line that a split edit breaks in two (0: none)
+	MarkerWord string // alpha-marker class: the word the kept marker becomes
+	RestFields int    // remainder class: number of blank-separated fields after the split word on its line
+}
+
+// c06Mechanism reports whether the difference between the word sequences of base and edited
+// text is exactly what the recorded finding of e.Class produces (the class key is used only then):
+// alpha marker kept as a word = base words plus copies of the marker's word; remainder of a
+// continuation line tokenised as a fresh line = one contiguous run of at most RestFields base
+// words missing.
+func c06Mechanism(base string, e c06Edit) bool {
+	wb, we := vWords(vTokenize([]byte(base))), vWords(vTokenize([]byte(e.Text)))
+	switch e.Class {
+	case "alpha-marker-with-paren":
+		i := 0
+		for _, w := range we {
+			if i < len(wb) && w == wb[i] {
+				i++
+			} else if w != e.MarkerWord {
+				return false
+			}
+		}
+		return i == len(wb) && len(we) > len(wb)
+	case "remainder-after-hyphen-join-rebased":
+		i := 0
+		for i < len(wb) && i < len(we) && wb[i] == we[i] {
+			i++
+		}
+		k := len(wb) - len(we)
+		if k < 1 || k > e.RestFields {
+			return false
+		}
+		return strings.Join(wb[i+k:], " ") == strings.Join(we[i:], " ")
+	}
+	return true
 }
 
 // c06NoticeVerdict classifies a missing notice: "drift" when the notice IS reported, but k lines early,
@@ -217,6 +251,7 @@ func c06ChooseEdit(r *vx.Run, text string, docFirst, docLast int, kinds []string
 		e.Text = strings.Join(nl, "\n")
 		if refAlphaParen.MatchString(mk) {
 			e.Class = "alpha-marker-with-paren"
+			e.MarkerWord = strings.ToLower(strings.TrimSuffix(mk, ")"))
 		}
 		return e
 	case "split":
@@ -265,6 +300,7 @@ func c06ChooseEdit(r *vx.Run, text string, docFirst, docLast int, kinds []string
 		rest := lineWords(l[cd.end:])
 		if len(rest) > 0 && (refIsMarker(rest[0]) || refIsNoticeLine(l[cd.end:])) {
 			e.Class = "remainder-after-hyphen-join-rebased"
+			e.RestFields = len(strings.Fields(l[cd.end:]))
 		}
 		return e
 	case "splitnotice":
@@ -527,6 +563,9 @@ func c06Match(c *vrep.Ctx) {
 			}
 		}
 		msg, onlyNotice := c06Compare(cl, base, r0, e)
+		if msg != "" && !c06Mechanism(base, e) {
+			e.Class = "" // not the recorded mechanism: reported under its own key
+		}
 		if onlyNotice && strings.HasPrefix(msg, "DRIFT") {
 			e.Class = "line-drift-after-hyphen-join"
 		}
@@ -621,6 +660,9 @@ func c06Tokens(c *vrep.Ctx) {
 				msg = fmt.Sprintf("DRIFT inserted notice on line %d is reported on an earlier line (%d hyphen joins above)", e.NoticeLine, e.JoinsAbove)
 				e.Class = "line-drift-after-hyphen-join"
 			}
+		}
+		if msg != "" && !c06Mechanism(text, e) {
+			e.Class = ""
 		}
 		r.Note = map[string]interface{}{"id": fmt.Sprintf("%q|%s", text, e.ID), "msg": msg, "class": e.Class}
 	}
